@@ -217,7 +217,7 @@ Definition rd_tag_dyn : dec (N * list N) :=
 (* `for i := 0; i < count; i++ { x := d() }`: the count comes from the input and is never turned
    into a nat; the loop runs on fuel *)
 Fixpoint rep {A} (fuel : nat) (count : N) (d : dec A) (acc : list A) : dec (list A) :=
-  if count =? 0 then Ret (rev acc) else
+  if count =? 0 then Ret (rev_append acc []) else
   match fuel with
   | O => NoFuel
   | S f => x <- d ;; rep f (count - 1) d (x :: acc)
@@ -397,7 +397,7 @@ Fixpoint dec_dyn (fuel : nat) (id : N) : dec dval :=
         else if (t =? idEnd) && (0 <? n)%Z then Fail eEND
         else l <- rep f (Z.to_N n) (dec_dyn f t) [] ;; Ret (DList l)
       else if id =? idCompound then
-        m <- comp_loop f rd_tag_dyn (dec_dyn f) (fun k v m => (k, v) :: m) [] ;; Ret (DComp (rev m))
+        m <- comp_loop f rd_tag_dyn (dec_dyn f) (fun k v m => (k, v) :: m) [] ;; Ret (DComp (rev_append m []))
       else if id =? idIntArray then
         ReadFull 4 (fun h => let n := sx32 (unbe h) in
           if (n <? 0)%Z then Fail eNeg
